@@ -190,6 +190,8 @@ fn alpha(g: &GeneratorInnerData, st: usize, en: usize) -> Pure {
     u.hh = top.h_half.value();
     let mut l31 = SpecLevel::new();
     l31.h = if g.is_last { g.h_last.value() } else { top.h_full.value() };
+    // a level without pieces has never reset either FNV state: they agree
+    l31.hh = l31.h;
     Pure { lev, u, l31 }
 }
 
@@ -417,7 +419,7 @@ fn step_byte(st: usize, en: usize) {
     assert!(g1.roll_hash == r);
     kani::cover!(st1 > st || en - st < 2);
     kani::cover!(en1 > en || en == 31 || g0.bhidx_end_limit < en);
-    kani::cover!(g1.is_last && !g0.is_last || en < 31 || g0.bhidx_end_limit < 30);
+    kani::cover!(g1.is_last && !g0.is_last || en < 31 || g0.bhidx_end_limit < 30 || (st + 1 == en && st > 0));
     kani::cover!(g1.bh_context[st].blockhash_index == 63 && g0.bh_context[st].blockhash_index == 62);
 }
 
